@@ -118,7 +118,7 @@ class Twin:                   # built by Ent.twin() while a condition is evaluat
     a: int = 1
 
 
-CONSTRUCTED = {"Made": 0, "Pair": 0, "MadeKw": 0}   # construction counters (real instances only: __post_init__ ran)
+CONSTRUCTED = {"Made": 0, "Pair": 0, "MadeKw": 0, "MadeEmpty": 0}   # construction counters (real instances only: __post_init__ ran)
 
 
 @symbol
@@ -140,6 +140,16 @@ class Made:                   # target of rule inference: built from one binding
 class MadeKw(Made, KwMixin):  # dataclasses.fields() lists the keyword-only w FIRST, __init__ takes src, val, extra positionally
     def __post_init__(self):
         CONSTRUCTED["MadeKw"] += 1
+
+
+@symbol
+@dataclass(eq=False, repr=False)
+class MadeEmpty(Made):        # an instance that is FALSY (a container-like class whose __len__ is 0): still an instance
+    def __post_init__(self):
+        CONSTRUCTED["MadeEmpty"] += 1
+
+    def __len__(self):
+        return 0
 
 
 @symbol
@@ -183,7 +193,7 @@ class Foreign:                # unrelated undecorated class
 
 
 CLASSES = {"Ent": Ent, "EntKw": EntKw, "EntSub": EntSub, "EntSubSub": EntSubSub, "EntPlain": EntPlain, "EntV": EntV, "Other": Other, "Foreign": Foreign, "Made": Made,
-           "Pair": Pair, "MadeKw": MadeKw}
+           "Pair": Pair, "MadeKw": MadeKw, "MadeEmpty": MadeEmpty}
 
 
 TYPES = {**CLASSES, "int": int, "tuple": tuple}      # what HasType may test for (values as well as entities)
